@@ -981,6 +981,7 @@ func main() {
 	misuse(run)
 	if only < 0 {
 		poolUserSection(run)
+		scopeCloseSection(run)
 		raceSubRun(run)
 	}
 	run.Notes["rounds"] = executed
